@@ -221,7 +221,10 @@ class Actor:
                 continue
             if op == "Set":
                 try:
-                    mgr.set_backend(_arg(cmd["m"], cmd["name"]), local_threadsafe=cmd["loc"])
+                    if cmd.get("pos"):       # the flavour handed over positionally
+                        mgr.set_backend(_arg(cmd["m"], cmd["name"]), cmd["loc"])
+                    else:
+                        mgr.set_backend(_arg(cmd["m"], cmd["name"]), local_threadsafe=cmd["loc"])
                     self.outbox.put(("ok", ""))
                 except Exception as ex:
                     self.outbox.put(("raised", type(ex).__name__))
@@ -258,7 +261,8 @@ class Actor:
                             entered, r = box.get("entered", False), box.get("r")
                     else:
                         try:
-                            with mgr.backend_context(_arg(cmd["m"], cmd["name"]), local_threadsafe=cmd["loc"]):
+                            with (mgr.backend_context(_arg(cmd["m"], cmd["name"]), cmd["loc"]) if cmd.get("pos") else
+                                  mgr.backend_context(_arg(cmd["m"], cmd["name"]), local_threadsafe=cmd["loc"])):
                                 body()
                         finally:
                             entered, r = box.get("entered", False), box.get("r")
@@ -367,6 +371,8 @@ def main():
                  "out": outcome, "exc": exc, "obs": obs}
             if op["ev"] == "Enter":
                 e["form"] = op.get("form", "with")
+            if op.get("pos"):
+                e["pos"] = True
             emit(e)
             if outcome == "raised" and op["ev"] == "Exit":
                 break   # state of the real system is no longer tracked by the schedule
